@@ -101,6 +101,19 @@ func c09Root(c *core.Ctx) {
 					c.Decide(norm(got) == proofWant[p][k], rule, fmt.Sprintf("flows.getImportedBridgeExits#%s.%s.%s", short, p, k), al.Pos(), p+"."+k+" ← "+norm(got))
 				}
 			}
+			// every object hanging off the claim data is allocated for THIS claim (no aliasing across iterations)
+			fresh := true
+			var stale *ssa.Alloc
+			lit.Walk(func(t *core.Term) {
+				if a, ok := t.Val.(*ssa.Alloc); ok && a.Heap && !core.Dominates(conv, a) {
+					fresh, stale = false, a
+				}
+			})
+			if fresh {
+				c.Hold(rule, "flows.getImportedBridgeExits#"+short+"#fresh-objects", "every proof / leaf object of the claim data is allocated in the claim's own iteration")
+			} else {
+				c.Violate(rule, "flows.getImportedBridgeExits#"+short+"#fresh-objects", stale.Pos(), "an object referenced from the claim data is allocated outside the per-claim iteration: all exits share it and end up with the last claim's values")
+			}
 			// the literal is attached to this claim's exit, on the matching branch of the mainnet flag
 			flagWant := kind == "agglayer/types.ClaimFromMainnnet"
 			edges := core.TermEdges(fn, sx, func(s string, _ *core.Term) bool { return s == "IBE.GlobalIndex.MainnetFlag" }, flagWant)
@@ -185,6 +198,75 @@ func c09Count(c *core.Ctx) {
 			}
 		})
 		c.Decide(ok && okRoot, rule, "flows.(*baseFlow).BuildCertificate#count-and-root", bc.Pos(), "certificate.L1InfoTreeLeafCount ← params; claim proofs built against params.L1InfoTreeRootFromWhichToProve")
+	}
+}
+
+func c09Finalized(c *core.Ctx) {
+	const rule = "C09-finalized"
+	sx := core.NewSymx()
+	fn := c.MustFn(rule, "aggsender/query", "L1InfoTreeDataQuerier", "getLatestProcessedFinalizedBlock")
+	if fn != nil {
+		var gp *ssa.Call
+		core.Instrs(fn, func(i ssa.Instruction) {
+			if strings.HasSuffix(core.CallName(i), ").GetProcessedBlockUntil") {
+				gp, _ = i.(*ssa.Call)
+			}
+		})
+		if gp == nil {
+			c.Violate(rule, "aggsender/query.getLatestProcessedFinalizedBlock#shape", fn.Pos(), "the syncer's processed block (and hash) at or below the finalized block is no longer looked up")
+		} else {
+			h := core.ExtractOf(gp, 1)
+			sb := core.NewSymx().Bind(h, "STOREDHASH")
+			same := core.TermEdges(fn, sb, func(s string, _ *core.Term) bool {
+				return strings.HasPrefix(s, "(STOREDHASH == (*github.com/ethereum/go-ethereum/core/types.Header).Hash(") || (strings.HasSuffix(s, " == STOREDHASH)") && strings.Contains(s, "types.Header).Hash("))
+			}, true)
+			legacy := core.TermEdges(fn, sb, func(s string, _ *core.Term) bool {
+				return s == "(STOREDHASH == const(zero:github.com/ethereum/go-ethereum/common.Hash))"
+			}, true)
+			ok := len(same) > 0
+			for _, rc := range core.ReturnCases(fn) {
+				if len(rc.Values) == 2 && isNilConst(rc.Values[1]) {
+					ok = ok && rc.ReachableOnlyVia(fn, append(append([]core.IfEdge{}, same...), legacy...))
+				}
+			}
+			c.Decide(ok, rule, "aggsender/query.getLatestProcessedFinalizedBlock#hash-crosscheck", gp.Pos(), "a block number is returned only when the syncer's stored hash for it equals the L1 node's hash (or predates hash recording): a reorged block the syncer has not yet rewound is refused")
+			// the header compared is the header of the block returned
+			a := gp.Call.Args
+			c.Decide(strings.Contains(sx.Of(a[len(a)-1]).String(), "HeaderByNumber(l.l1Client, ctx, aggsender/query.finalizedBlockBigInt)#0.Number"), rule, "aggsender/query.getLatestProcessedFinalizedBlock#until-finalized", gp.Pos(), "the syncer is asked for its last processed block at or below the FINALIZED L1 block")
+		}
+	}
+	gr := c.MustFn(rule, "aggsender/query", "L1InfoTreeDataQuerier", "GetLatestFinalizedL1InfoRoot")
+	if gr != nil {
+		ok := false
+		for _, r := range core.Returns(gr) {
+			if len(r.Results) != 3 || !isNilConst(r.Results[2]) {
+				continue
+			}
+			blk := "(*aggsender/query.L1InfoTreeDataQuerier).getLatestProcessedFinalizedBlock(l, ctx)#0"
+			leaf := "(aggsender/query.L1InfoTreeSyncer).GetLatestInfoUntilBlock(l.l1InfoTreeSyncer, ctx, " + blk + ")#0"
+			leafS := sx.Of(r.Results[1]).String()
+			rootS := sx.Of(r.Results[0]).String()
+			ok = strings.HasSuffix(leafS, ").GetLatestInfoUntilBlock(l.l1InfoTreeSyncer, ctx, "+blk+")#0") &&
+				strings.Contains(rootS, ").GetL1InfoTreeRootByIndex(l.l1InfoTreeSyncer, ctx, "+leafS+".L1InfoTreeIndex)#0")
+			_ = leaf
+		}
+		c.Decide(ok, rule, "aggsender/query.GetLatestFinalizedL1InfoRoot#chain", gr.Pos(), "root = root recorded for the index of the latest leaf until the cross-checked finalized block; the same leaf is returned")
+	}
+	// the querier keeps no state between calls (a cache keyed by GER alone would serve proofs for an older root)
+	for _, tn := range [][2]string{{"aggsender/query", "L1InfoTreeDataQuerier"}, {"aggsender/query", "bridgeDataQuerier"}, {"aggsender/flows", "baseFlow"}} {
+		n := c.Named(tn[0], tn[1])
+		if n == nil {
+			c.Undecide(rule, "anchor "+tn[0]+"."+tn[1], 0, "type does not resolve")
+			continue
+		}
+		var fields []string
+		for _, fs := range fieldStoresOf(c, n) {
+			if tn[1] == "bridgeDataQuerier" && fs.field == "delayBetweenRetries" {
+				continue // configuration default applied lazily, carries no chain data
+			}
+			fields = append(fields, fs.field+"@"+core.ShortFn(fs.fn))
+		}
+		c.Decide(len(fields) == 0, rule, tn[0]+"."+tn[1]+"#stateless", 0, fmt.Sprintf("no field of the querier/flow object is written after construction (found: %v)", fields))
 	}
 }
 
@@ -302,6 +384,7 @@ func init() {
 		Rules: []Rule{
 			{ID: "C09-root", Floor: 26, Run: c09Root, Text: "[PROV]+[FIELDMAP]+[DOM] claim data literals of both kinds"},
 			{ID: "C09-count", Floor: 4, Run: c09Count, Text: "[PROV] leaf count and root from one object; certificate copies from params"},
+			{ID: "C09-finalized", Floor: 6, Run: c09Finalized, Text: "[DOM]+[PROV]+[WHO] finalized-root selection cross-checks the block hash; root/leaf chain; querier objects are stateless"},
 			{ID: "C09-leafhash", Floor: 3, Run: c09LeafHash, Text: "[LAYOUT] L1 info leaf hash: contract layout and sibling agreement"},
 			{ID: "C09-ger", Floor: 6, Run: c09GER, Text: "[LAYOUT]+[DOM] GER = keccak(mainnet‖rollup) at every site; mismatch rejected"},
 		},
